@@ -558,7 +558,22 @@ func c10RunHistory(h c10History) (res c10Result) {
 			return false
 		}
 	}
-	const hangLimit = 20 * time.Second
+	// An Open whose own synchronous dial is blackholed legitimately holds lifeMu for the whole connect timeout, and
+	// every other Open/Close of the history queues behind it: the watchdog allows for all of them in a row. (A
+	// thorough sweep reported `api-call-hung` on a random history with a 7.4 s connect timeout and four OpenWait
+	// calls behind blackholed dials — 4 x 7.4 s of legitimate waiting against the fixed 20 s: false alarm, corrected.)
+	hangLimit := 20 * time.Second
+	if h.ConnectTimeoutMs > 0 {
+		nOpen := 0
+		for _, pr := range h.Progs {
+			for _, o := range pr {
+				if o.Kind == "openWait" || o.Kind == "openBg" {
+					nOpen++
+				}
+			}
+		}
+		hangLimit += time.Duration(nOpen+1) * h.connectTimeout()
+	}
 	var cmu sync.Mutex
 	record := func(o c10Op) {
 		cmu.Lock()
@@ -797,7 +812,7 @@ func c10Judge(c *Ctx, pool *lifeLeanPool, r c10Result, slack time.Duration) {
 		return
 	}
 	if r.hung {
-		c.Violate("property", "api-call-hung", "an Open/Close call did not return within 20 s (close-timeout is 2 s); history abandoned", rep)
+		c.Violate("property", "api-call-hung", "an Open/Close call did not return within the watchdog limit (20 s plus every Open's connect timeout; close-timeout is 2 s); history abandoned", rep)
 		return
 	}
 	// ---- run-time oracles ----
